@@ -840,6 +840,50 @@ func main() {
 		}
 	}
 
+	// 1b. IN / NOT IN, deterministic family: needles that are the zero value of their kind (0, 0.0, -0.0, "", false,
+	// 0s, the epoch, NULL) and a non-zero control, against heterogeneous collections (mixed kinds, NULL elements,
+	// other kinds' zero values, nested lists).  Every needle meets every collection through all four descriptors.
+	{
+		epoch := time.Unix(0, 0).UTC()
+		needles := []octosql.Value{octosql.NewInt(0), octosql.NewFloat(0), octosql.NewFloat(math.Copysign(0, -1)), octosql.NewString(""),
+			octosql.NewBoolean(false), octosql.NewDuration(0), octosql.NewTime(epoch), octosql.NewNull(), octosql.NewInt(1), octosql.NewList(nil)}
+		colls := [][]octosql.Value{
+			{},
+			{octosql.NewInt(1), octosql.NewNull()},
+			{octosql.NewFloat(0.5), octosql.NewFloat(2.5)},
+			{octosql.NewString("a"), octosql.NewBoolean(true)},
+			{octosql.NewNull()},
+			{octosql.NewInt(0)},
+			{octosql.NewFloat(0)},
+			{octosql.NewString(""), octosql.NewBoolean(false)},
+			{octosql.NewDuration(0), octosql.NewTime(epoch)},
+			{octosql.NewList(nil), octosql.NewTuple(nil), octosql.NewStruct(nil)},
+			{octosql.NewNull(), octosql.NewString("x"), octosql.NewFloat(1.5), octosql.NewBoolean(true), octosql.NewDuration(5), octosql.NewInt(7)},
+			{octosql.NewList([]octosql.Value{octosql.NewInt(0)}), octosql.NewFloat(math.NaN()), octosql.NewInt(1)},
+		}
+		for _, s := range specs {
+			if s.name != "in" && s.name != "not in" {
+				continue
+			}
+			for _, nd := range needles {
+				for _, c := range colls {
+					coll := octosql.NewList(c)
+					if s.args[1] == kTuple {
+						coll = octosql.NewTuple(c)
+					}
+					args := []octosql.Value{nd, coll}
+					o := call(s.fn, args)
+					js := map[string]interface{}{"fn": s.ctor, "name": s.name, "args": valuesJSON(args), "observed": o.json()}
+					idx := cf.Add(fmt.Sprintf("CFn %s %s %s", s.ctor, coqValues(args), o.coq()), js, true)
+					cf.Count("in_zero_value_family")
+					if o.panicked != nil {
+						cf.Violation(idx, fmt.Sprintf("%s%v panicked: %v", s.name, valuesJSON(args), o.panicked), "")
+					}
+				}
+			}
+		}
+	}
+
 	// 2. COALESCE
 	for i := 0; i < nCo; i++ {
 		r := rng.Fork()
@@ -921,7 +965,6 @@ func main() {
 		cf.Count("coalesce")
 		if shortTuple {
 			cf.Count("coalesce_shorter_tuple")
-			cf.SetClass(idx, "coalesce-tuple-length")
 		}
 		if composite {
 			cf.Count("coalesce_composite")
@@ -1036,6 +1079,9 @@ func main() {
 		}
 		z := o.val.Float
 		bad := ""
+		if w := math.Pow(x, y); !(math.Float64bits(z) == math.Float64bits(w) || (math.IsNaN(z) && math.IsNaN(w))) {
+			cf.Violation(idx, fmt.Sprintf("pow(%v, %v) = %v, math.Pow gives %v", x, y, z, w), "")
+		}
 		switch {
 		case y == 0:
 			if z != 1 {
@@ -1076,6 +1122,39 @@ func main() {
 			cf.Violation(idx, fmt.Sprintf("pow(%v,%v) = %v: %s", x, y, z, bad), "")
 		}
 	}
+	// the full IEEE special-value grid: pow over grid x grid, log/log2/log10 over the grid, bit for bit against Go's
+	// math.Pow / math.Log / math.Log2 / math.Log10 (which are these functions' definition; NaN payloads identified)
+	{
+		grid := []float64{0, math.Copysign(0, -1), 1, -1, 0.5, -0.5, 2, -2, math.Inf(1), math.Inf(-1), math.NaN(),
+			math.MaxFloat64, -math.MaxFloat64, math.SmallestNonzeroFloat64, -math.SmallestNonzeroFloat64, 3, -3, 1.5}
+		same := func(a, b float64) bool {
+			return math.Float64bits(a) == math.Float64bits(b) || (math.IsNaN(a) && math.IsNaN(b))
+		}
+		for _, x := range grid {
+			for _, y := range grid {
+				o := call(powFn, []octosql.Value{octosql.NewFloat(x), octosql.NewFloat(y)})
+				idx := goSide(map[string]interface{}{"fn": "pow", "x": fmt.Sprint(x), "y": fmt.Sprint(y), "observed": o.json()})
+				cf.Count("pow_special_grid")
+				want := math.Pow(x, y)
+				if o.panicked != nil || o.err != nil || o.val.TypeID != octosql.TypeIDFloat || !same(o.val.Float, want) {
+					cf.Violation(idx, fmt.Sprintf("pow(%v, %v) = %v, math.Pow gives %v (bits %016x)", x, y, o.json(), want, math.Float64bits(want)), "")
+				}
+			}
+		}
+		refs := map[string]func(float64) float64{"log": math.Log, "log2": math.Log2, "log10": math.Log10}
+		for _, name := range names {
+			for _, x := range grid {
+				o := call(logf[name].fn, fl(x))
+				idx := goSide(map[string]interface{}{"fn": name, "x": fmt.Sprint(x), "observed": o.json()})
+				cf.Count("log_special_grid")
+				want := refs[name](x)
+				if o.panicked != nil || o.err != nil || o.val.TypeID != octosql.TypeIDFloat || !same(o.val.Float, want) {
+					cf.Violation(idx, fmt.Sprintf("%s(%v) = %v, math gives %v (bits %016x)", name, x, o.json(), want, math.Float64bits(want)), "")
+				}
+			}
+		}
+	}
+
 	// float(String): acceptance table, then round trips through string()
 	floatStr := single(fm, "float", octosql.String)
 	intStr := single(fm, "int", octosql.String)
@@ -1139,7 +1218,7 @@ func main() {
 	}
 
 	// COALESCE over tuples of different lengths: the output type (TypeSum) takes the longer one and
-	// calculateMapping indexes the shorter argument type past its end (known finding, one fixed probe)
+	// calculateMapping indexed the shorter argument type past its end before the fix (one fixed probe)
 	{
 		tup := func(ts ...octosql.Type) octosql.Type {
 			return octosql.Type{TypeID: octosql.TypeIDTuple, Tuple: struct{ Elements []octosql.Type }{Elements: ts}}
@@ -1150,7 +1229,7 @@ func main() {
 			[]execution.Expression{&countingExpr{val: octosql.NewTuple([]octosql.Value{octosql.NewInt(1), octosql.NewInt(2)}), count: &n}, &countingExpr{val: octosql.NewNull(), count: &n}})
 		idx := goSide(map[string]interface{}{"fn": "COALESCE((1, 2), (1, 2, 3))", "observed": o.json()})
 		if o.panicked != nil {
-			cf.Violation(idx, fmt.Sprintf("COALESCE((1, 2), (1, 2, 3)) panicked: %v", o.panicked), "coalesce-tuple-length")
+			cf.Violation(idx, fmt.Sprintf("COALESCE((1, 2), (1, 2, 3)) panicked: %v", o.panicked), "")
 		} else if o.err != nil || o.val.TypeID != octosql.TypeIDTuple || len(o.val.Tuple) < 2 || o.val.Tuple[0].Int != 1 || o.val.Tuple[1].Int != 2 {
 			cf.Violation(idx, fmt.Sprintf("COALESCE((1, 2), (1, 2, 3)) = %v", o.json()), "")
 		}
